@@ -128,7 +128,7 @@ pub fn pools(max_keys: usize) -> impl Strategy<Value = Pools> {
 pub fn sync_config() -> impl Strategy<Value = Option<(usize, usize)>> {
     prop_oneof![
         5 => Just(None),
-        5 => (select(vec![2usize, 3, 4, 5, 6, 8, 16]), select(vec![1usize, 2, 3, 4, 8, 64])).prop_map(Some),
+        5 => (select(vec![2usize, 3, 4, 5, 6, 8, 16]), select(vec![0usize, 1, 2, 3, 4, 8, 64])).prop_map(Some),
         1 => (select(vec![2usize, 7, 64, 1000]), select(vec![1usize, 5, 1000, usize::MAX])).prop_map(Some),
     ]
 }
